@@ -215,13 +215,19 @@ def findlinestarts(
             lineno = code.co_firstlineno
             offset = 0
             byte_incr = 0
+            # True when ``offset`` was reached through a (255, 0) entry, that is
+            # we are in the middle of one step that is longer than 255 bytes.
+            continued = False
             for byte_incr, line_delta in zip(byte_increments, line_deltas):
                 if byte_incr:
-                    if lineno != lastlineno or dup_lines and 0 < byte_incr < 255:
+                    if lineno != lastlineno or (
+                        dup_lines and 0 < byte_incr < 255 and not continued
+                    ):
                         yield offset, lineno
                         lastlineno = lineno
                         pass
                     offset += byte_incr
+                    continued = byte_incr == 255 and line_delta == 0
                     if stop_at_code_end and offset >= bytecode_len:
                         # The rest of the ``lnotab byte offsets are past the end of
                         # the bytecode; any line numbers for these have been removed.
@@ -231,7 +237,9 @@ def findlinestarts(
                     # Since 3.6, line_deltas is an array of 8-bit *signed* integers
                     line_delta -= 0x100
                 lineno += line_delta
-            if lineno != lastlineno or (dup_lines and 0 < byte_incr < 255):
+            if lineno != lastlineno or (
+                dup_lines and 0 < byte_incr < 255 and not continued
+            ):
                 yield offset, lineno
 
     return
